@@ -6,6 +6,7 @@ from fractions import Fraction
 
 sys.path.insert(0, os.path.dirname(os.path.dirname(os.path.abspath(__file__))))
 from verif_static.core import run_check, AnalysisError  # noqa
+from verif_static.norm import same, same_stmt  # noqa
 from verif_static import model as M, cfg as C  # noqa
 from verif_static.poly import Poly  # noqa
 
@@ -101,7 +102,13 @@ def rule_normalised(chk, tree):
         d = divs.get('d_prop[d_idx]')
         ok = d is not None and d[0] == '/=' and d[1] is not None and d[1] == Poly.var(nk)
         gi = M.enclosing(d[2], (ast.If,)) if d else None
-        okg = gi is not None and compact(gi.test).startswith(nk + '>') and not gi.orelse
+        okg = False
+        if gi is not None and not gi.orelse and isinstance(gi.test, ast.Compare) and len(gi.test.ops) == 1:
+            # `normaliser > eps` in either spelling, eps a non-negative literal
+            l, r, op = gi.test.left, gi.test.comparators[0], gi.test.ops[0]
+            if isinstance(op, (ast.Lt, ast.LtE)):
+                l, r, op = r, l, ast.Gt()
+            okg = isinstance(op, (ast.Gt, ast.GtE)) and compact(l) == nk and isinstance(r, ast.Constant) and isinstance(r.value, (int, float)) and r.value >= 0
         chk.decide(ok and okg, 'one-weight-in-numerator-and-denominator', method + ':divide', node=pl, file=INT, func=cname + '.post_loop',
                    detail_bad='post_loop does not divide the accumulated value by the accumulated weight %s under a positivity guard (zero where nothing contributes)' % nk,
                    detail_ok='prop /= %s if %s > eps' % (nk, nk))
@@ -151,7 +158,7 @@ def rule_sources(chk, tree):
     chk.decide(kw.get('name') == "'interpolate'" and kw.get('x') == 'xr' and kw.get('y') == 'yr' and kw.get('z') == 'zr' and kw.get('h') == 'h', 'all-arrays-are-sources',
                'target-array', node=pa, file=INT, func='_create_particle_array', detail_bad='target array built with %s' % kw, detail_ok="name='interpolate', the target coordinates")
     hm = M.find_func(icls, '_get_max_h_in_arrays')
-    ok = any(isinstance(l, ast.For) and compact(l.iter) == 'self.particle_arrays' for l in ast.walk(hm)) and 'hmax=max(array.h.max(),hmax)' in compact(hm)
+    ok = any(isinstance(l, ast.For) and compact(l.iter) == 'self.particle_arrays' for l in ast.walk(hm)) and any(isinstance(x, ast.Assign) and same_stmt(x, 'hmax=max(array.h.max(),hmax)') for x in ast.walk(hm))
     chk.decide(ok, 'all-arrays-are-sources', 'target-h-is-max-source-h', node=hm, file=INT, func='_get_max_h_in_arrays',
                detail_bad='target smoothing length is not the maximum h over all source arrays', detail_ok='max over all arrays')
 
